@@ -1374,3 +1374,35 @@ def c18(ctx):
     return "exploration", cov, ["universality over byte strings is by generation across the listed classes, not enumeration; the specification fixes the hops, the order "
                                 "and the one permitted exception", "WhoIs is the injected seam (every caller is granted everything); the interactive terminal path of "
                                 "`setec put` is not exercised (no terminal)"]
+
+
+# ----------------------------------------------------------------------------- C17
+@check("C17")
+def c17(ctx):
+    th = ctx.thorough
+    cfg = open(os.path.join(VERIF, "spec", "cfg", "BackupMC.cfg")).read()
+    consts = {} if th else {"Steps": "{30000}", "Horizon": 330000}
+    run = ctx.tlc("BackupMC", cfg, workers=NCPU, name="mc", timeout=3000, heap="12g", consts=consts)
+    ctx.tlc_must_pass(run, "Backup: Consistent, RateLimit, Settled, ChangeDriven, Quiescent, CoverExact over all timelines")
+    results, wd, code = ctx.godrive("backup", "^TestBackupTimelines$", env={"VERIF_TRACES": 3000 if th else 300}, name="timelines", timeout=3000)
+    r = ctx.take(results, "backup-timelines")
+    st = validate_branching(ctx, "BackupTrace", "BackupTrace.cfg", os.path.join(wd, "trace.ndjson"), 16 if th else 8, "backup",
+                            {}, describe=lambda ev: json.dumps(ev, sort_keys=True)[:160])
+    # the task is actually started by server.New when a bucket is configured (real time, loopback endpoint)
+    results2, wd2, _ = ctx.godrive("backup", "^TestServerStartsBackups$", name="servernew", timeout=600)
+    r2 = ctx.take(results2, "backup-servernew")
+    cov = {"states": run.distinct, "transitions": run.generated, "traces_validated_against_impl": st["accepted"],
+           "samples": (r.get("samples") or [])[:2], "timelines_recorded": st["histories"], "trace_events_validated": st["events"],
+           "uploads_observed": r["counters"].get("uploads", 0), "database_writes": r["counters"].get("writes", 0),
+           "server_new_uploads": r2["counters"].get("uploads", 0),
+           "explanation": "Backup.tla models the loop step by step (check the generation / read the live file / request reaches the bucket / outcome incl. the "
+                          "five-minute limit / wait a minute / exit on cancellation) with database writes, a bucket that answers, fails or stalls, "
+                          "cancellation and an explicit clock that cannot pass a due step. TLC checks Consistent, ChangeDriven, RateLimit, Quiescent, "
+                          "CoverExact and Settled over all bounded timelines. The real loop (hook server.VerifPeriodicBackup) runs under testing/synctest "
+                          "against a real db.DB and an in-memory S3 endpoint on random timelines (write bursts, idle stretches of up to 10 minutes, bucket "
+                          "failing or stalling at any position, writes racing a stalled upload, cancellation at any moment); every write (generation, file "
+                          "digest), request (body digest), outcome, clock step, cancellation and return is validated by TLC, which places the unlogged steps. "
+                          "A watchdog on the real clock reports a bubble that never becomes idle (a spinning task)."}
+    return "model_checking", cov, ["virtual time (testing/synctest); the S3 endpoint is an in-memory HTTP client given to a real aws-sdk s3.Client (one attempt per "
+                                   "upload)", "file versions are identified by the SHA-256 of the live file after each write",
+                                   "'does not hammer the database lock' is covered only as 'takes no step while waiting' (the bubble is idle)"]
